@@ -194,6 +194,12 @@ def run_prot(prop, tier, seed, fail=False):
                              ["mpfail:%d" % k, "new", "fill:a5", "resize:%d" % (2 * n + 1), "fill:a6", "drop", "new", "fill:77@1", "lock@1", "resize:%d@1" % (4 * n), "drop@1"],
                              ["new", "fill:a5", "lock", "mpfail:%d" % k, "resize:%d" % (2 * n + 4096), "fill:a7", "unlock", "clone", "drop", "drop@1"]):
                     mp.append(Case("prot bytes %d %s" % (n, " ".join(toks)), cls="bytes/mprotect-refused-once"))
+        # the application locks the buffer itself (or runs under mlockall): the pages are still locked when the allocator gets the block back
+        for n in (4096, 8209, 12388, 20000):
+            for toks in (["new", "fill:a5", "rawmlock", "resize:%d" % (3 * n + 1), "fill:a6", "drop"],
+                         ["new", "fill:a5", "rawmlock", "resize:33", "drop"],
+                         ["new", "fill:a5", "lock", "unlock", "rawmlock", "resize:%d" % (2 * n + 4096), "fill:a7", "clone", "drop", "drop@1"]):
+                mp.append(Case("prot bytes %d %s" % (n, " ".join(toks)), cls="bytes/application-locked-pages"))
         mlines = assign_ids(mp)
         mimpl = run_engine(runner, mlines, env=env2)
         nb = 0
